@@ -372,6 +372,10 @@ def obs_model(sm):
 
 
 def obs_lf(lf):
+    import json as _json
+
+    import numpy
+
     rules = []
     for r in lf.get_param_rules():
         r = dict(r)
@@ -379,8 +383,35 @@ def obs_lf(lf):
             if isinstance(r.get(k), (list, tuple, set)):
                 r[k] = sorted(r[k])
         rules.append(canon(r))
-    rules.sort(key=lambda r: (r.get("par_name", ""), repr(r.get("edges")), repr(r.get("loci")), repr(r.get("bins"))))
-    aln = lf.get_param_value("alignment") if False else None
+    rules.sort(key=lambda r: _json.dumps(r, sort_keys=True, default=repr))
+    loci = list(lf.locus_names)
+    bins = list(lf.bin_names)
+    edges = [e.name for e in lf.tree.get_edge_vector(include_root=False)]
+
+    def per_locus(l):
+        d = {}
+        # which alignment sits on which locus (names + sequences), its motif probs and its own lnL contribution
+        d["alignment"] = _try(lambda: canon(lf.get_param_value("alignment", locus=l).to_dict()))
+        d["mprobs"] = _try(lambda: canon(lf.get_motif_probs(locus=l).to_dict()))
+        d["lnL"] = _try(lambda: float(numpy.log(lf.get_full_length_likelihoods(locus=l)).sum()) if len(bins) == 1 else None)
+        return d
+
+    # every parameter value per (edge, locus, bin); a dimension a parameter does not have is simply not indexed
+    values = {}
+    for par in lf.get_param_names():
+        if par in ("mprobs", "alignment"):
+            continue
+        for e in edges:
+            for l in loci:
+                for b in bins:
+                    v = None
+                    for kw in (dict(edge=e, locus=l, bin=b), dict(edge=e, locus=l), dict(edge=e, bin=b), dict(locus=l, bin=b), dict(edge=e), dict(locus=l), dict(bin=b), {}):
+                        try:
+                            v = lf.get_param_value(par, **kw)
+                            break
+                        except Exception:
+                            continue
+                    values[f"{par}|{e}|{l}|{b}"] = canon(v)
     o = dict(
         cls=type(lf).__name__,
         lnL=float(lf.lnL),
@@ -388,7 +419,10 @@ def obs_lf(lf):
         name=lf.name,
         model=lf.model.name,
         tree=_try(lambda: obs_tree(lf.get_annotated_tree())),
-        mprobs=canon(_try(lambda: lf.get_motif_probs().to_dict())),
+        locus_names=[str(x) for x in loci],
+        bin_names=[str(x) for x in bins],
+        loci={str(l): per_locus(l) for l in loci},
+        values=values,
         rules=rules,
         stats=_try(lambda: {t.title: canon(t.to_list()) for t in lf.get_statistics(with_motif_probs=False)}),
     )
